@@ -31,7 +31,14 @@ def build_cases(tier, seed):
         if i % 6 == 3:
             # full batteries arriving at stations and leaving queues (short hops)
             prof.update({"soc": [1.0, 1.0, 0.9995, 0.05, 0.02], "spread": 0.004, "network": "euclidean", "p_human": 0.5, "p_home_station": 0.2})
-        cases.append(trace_case("C02", i, s, prof, ctrl, steps, ["C02"], opts=({"inject_requests": {"every": 6, "public": i % 10 == 7}} if i % 5 == 2 else {"cosim_ops": {"every": 8, "kinds": ["append_plugs", "append_plugs", "scale_rate"]}} if i % 5 == 4 else {})))
+        opts_ = None
+        if i % 10 == 1:
+            # a station changes hands while vehicles wait or charge there
+            prof["fleets"] = [2, 3, 0][(i // 10) % 3]
+            opts_ = {"cosim_ops": {"every": 6, "kinds": ["change_station_membership"]}}
+        if i % 10 == 6:
+            prof["shared_ids"] = 0.6  # ids are per kind: a depot entered as base "b1" with its plugs as station "b1"
+        cases.append(trace_case("C02", i, s, prof, ctrl, steps, ["C02"], opts=opts_ or ({"inject_requests": {"every": 6, "public": i % 10 == 7}} if i % 5 == 2 else {"cosim_ops": {"every": 8, "kinds": ["append_plugs", "append_plugs", "scale_rate"]}} if i % 5 == 4 else {})))
     cases += systematic_cases("C02", tier, seed)
     if tier == "thorough":
         for w in ("denver_downtown/denver_demo.yaml", "denver_downtown/denver_demo_constrained_charging.yaml", "denver_downtown/denver_demo_fleets.yaml"):
